@@ -65,7 +65,8 @@ def check_membership(ctx, case):
             ctx.fail("after editing letter {} of a MutableSeq record in place ({!r} -> {!r}), {!r} in record is {}".format(
                 i, wd, edited, q, q in mrec), case)
     ctx.case(case, nontrivial=(len(q) >= 1 and len(wd) >= 2), key=[wd, q])
-    ctx.op(("IN", wd, q), case)
+    if all(ch.isascii() and ch.isalpha() for ch in q):
+        ctx.op(("IN", wd, q), case)         # (other text goes to the oracle only: the wire carries letters)
 
 
 def check_slice(ctx, case):
@@ -141,6 +142,16 @@ def check_object_behaviour(ctx, case):
             ctx.fail("a SeqRecord declared {} can be wrapped as circular".format(topo), case)
         except ValueError:
             pass
+    # extra keyword arguments do not talk a linear record into a circular one
+    lin_rec = SeqRecord(Seq(wd), id="lin", annotations={"topology": "linear"})
+    for extra in ({"annotations": {}}, {"annotations": {"note": "x"}}, {"features": []}, {"dbxrefs": []}):
+        try:
+            CircularRecord(lin_rec, **extra)
+            ctx.fail("a record declared linear is wrapped as circular when {} is passed along".format(sorted(extra)), case)
+        except ValueError:
+            pass
+        except Exception as e:  # noqa
+            ctx.fail("wrapping a linear record with {} raises {} instead of ValueError".format(sorted(extra), type(e).__name__), case)
     # what is wrapped may itself be a circular record whose annotation was changed afterwards: the declaration counts
     relab = CircularRecord(Seq(wd), id="relabelled")
     for spelling in ("linear", "Linear", "LINEAR"):
@@ -216,6 +227,10 @@ def run(ctx):
             q = (wd * 2)[: n + rng.randint(1, 3)]
         else:
             q = gen.rnd(rng, rng.randint(0, 4))
+        if q and rng.random() < 0.05:
+            # … any text: a letter that is no nucleotide at all simply does not occur
+            i = rng.randrange(len(q))
+            q = q[:i] + rng.choice(["\u00b5", "\u0394", "\u00e9", "-", " "]) + q[i + 1:]
         if q and rng.random() < 0.15:
             # a query is text: an ambiguity letter in it is a letter like any other, not a wildcard
             i = rng.randrange(len(q))
